@@ -275,6 +275,119 @@ def runChainSection (seed : Option V) (ops : List (F × Precedence × Option V))
 
 end arm
 
+/-! ### The same arm with an interpreter STATE
+
+`evaluate(env, e)` reads and writes the environment: an operand may reassign an operator variable
+of the very chain it stands in, or its `::precedence`.  What the arm does about that is fixed by the
+ORDER in which it calls `evaluate`: in every path the operator expression of position `i` is
+evaluated (looked up) after operand `i-1` and before operand `i`, afresh at every position — the
+value found there, function and precedence, is what `give` receives.  `evaluate` therefore threads
+a state `σ` here; the state survives a failure (what was assigned stays assigned).  Applying an
+operator is still a function of its arguments (`run`). The stateless `Lang` versions above are the
+special case in which `evaluate` ignores the state (`chainArmS_of_pure`). -/
+
+structure LangS (σ E F V : Type) where
+  /-- `evaluate(env, e)` with its effect on the environment -/
+  evaluate : E → σ → Out V × σ
+  isUnderscore : E → Bool
+  asFunc : V → Option (F × Precedence)
+  mkSection : Option V → List (F × Precedence × Option V) → V
+  run : F → List V → Out V
+  run2 : F → V → V → Out V
+  tryChain : F → F → Option F
+
+/-- state + failure; the state is kept when a step fails -/
+abbrev SM (σ α : Type) := σ → Out α × σ
+
+namespace SM
+variable {σ α β : Type}
+def pure (a : α) : SM σ α := fun s => (.ok a, s)
+def fail : SM σ α := fun s => (.throw, s)
+def lift (o : Out α) : SM σ α := fun s => (o, s)
+def bind (x : SM σ α) (f : α → SM σ β) : SM σ β := fun s =>
+  match x s with
+  | (.ok a, s') => f a s'
+  | (.throw, s') => (.throw, s')
+  | (.panic, s') => (.panic, s')
+end SM
+
+section armS
+variable {σ E F V : Type} (J : LangS σ E F V)
+
+/-- section path, operators (~709-738): operator looked up, then its operand unless it is `_` -/
+def sectionOpsS : List (E × E) → SM σ (List (F × Precedence × Option V))
+  | [] => SM.pure []
+  | (oper, opd) :: rest =>
+    SM.bind (J.evaluate oper) fun oprr =>
+    match J.asFunc oprr with
+    | some (b, prec) =>
+      if J.isUnderscore opd then
+        SM.bind (sectionOpsS rest) fun acc => SM.pure ((b, prec, none) :: acc)
+      else
+        SM.bind (J.evaluate opd) fun oprd =>
+        SM.bind (sectionOpsS rest) fun acc => SM.pure ((b, prec, some oprd) :: acc)
+    | none => SM.fail
+
+def sectionPathS (op1 : E) (ops : List (E × E)) : SM σ V :=
+  SM.bind (if J.isUnderscore op1 then SM.pure none
+           else SM.bind (J.evaluate op1) fun v => SM.pure (some v)) fun v1 =>
+  SM.bind (sectionOpsS J ops) fun acc =>
+  SM.pure (J.mkSection v1 acc)
+
+def fastPathS (op1 oper opd : E) : SM σ V :=
+  SM.bind (J.evaluate op1) fun lhs =>
+  SM.bind (J.evaluate oper) fun oprr =>
+  match J.asFunc oprr with
+  | some (b, _prec) => SM.bind (J.evaluate opd) fun oprd => SM.lift (J.run2 b lhs oprd)
+  | none => SM.fail
+
+/-- the loop of the general path (~796): at EVERY position the operator expression is evaluated
+in the current state (no value is carried over from an earlier position), then the operand, then
+`give` -/
+def generalLoopS : List (E × E) → CE F V → SM σ V
+  | [], ev => SM.lift (ev.finish J.run)
+  | (oper, opd) :: rest, ev =>
+    SM.bind (J.evaluate oper) fun oprr =>
+    match J.asFunc oprr with
+    | some (b, prec) =>
+      SM.bind (J.evaluate opd) fun oprd =>
+      SM.bind (SM.lift (ev.give J.run J.tryChain b prec oprd)) fun ev' =>
+      generalLoopS rest ev'
+    | none => SM.fail
+
+def generalPathS (op1 : E) (ops : List (E × E)) : SM σ V :=
+  SM.bind (J.evaluate op1) fun v1 => generalLoopS J ops (CE.new v1)
+
+def chainArmS (op1 : E) (ops : List (E × E)) : SM σ V :=
+  if J.isUnderscore op1 || ops.any (fun p => J.isUnderscore p.2) then
+    sectionPathS J op1 ops
+  else
+    match ops with
+    | [(oper, opd)] => fastPathS J op1 oper opd
+    | _ => generalPathS J op1 ops
+
+/-- a stateless language as a stateful one -/
+def Lang.toS (I : Lang E F V) : LangS σ E F V where
+  evaluate := fun e s => (I.evaluate e, s)
+  isUnderscore := I.isUnderscore
+  asFunc := I.asFunc
+  mkSection := I.mkSection
+  run := I.run
+  run2 := I.run2
+  tryChain := I.tryChain
+
+/-- the same language, additionally recording every call of `evaluate` in the state -/
+def LangS.traced : LangS (σ × List E) E F V where
+  evaluate := fun e s => ((J.evaluate e s.1).1, ((J.evaluate e s.1).2, s.2 ++ [e]))
+  isUnderscore := J.isUnderscore
+  asFunc := J.asFunc
+  mkSection := J.mkSection
+  run := J.run
+  run2 := J.run2
+  tryChain := J.tryChain
+
+end armS
+
 /-! ### `default_precedence` (core.rs ~4670) -/
 
 def DEFAULT_PRECEDENCE : Int := 0
